@@ -57,6 +57,7 @@ def main() -> int:
     ap.add_argument("--all", action="store_true")
     ap.add_argument("--property")
     ap.add_argument("--tier", default="quick")
+    ap.add_argument("--json", default=None, help="append machine-readable results to this file")
     args = ap.parse_args()
     mutants = json.loads((VERIF / "vlib/mutants/mutants.json").read_text())
     sel = [m for m in mutants if args.all or m["id"] in args.ids or (args.property and m["property"] == args.property)]
@@ -79,6 +80,14 @@ def main() -> int:
                 print(f"     also {prop}: exit={rr['exit']}")
         for l in main_res["tail"]:
             print("    |", l[:200])
+        if args.json:
+            try:
+                allres = json.loads(Path(args.json).read_text())
+            except Exception:
+                allres = {}
+            allres[m["id"]] = {"property": m["property"], "caught": caught, "note": m.get("note", ""), "what": main_res["what"][:1],
+                               "also": {p: rr["exit"] == 1 for p, rr in r["results"].items() if p != m["property"]}, "tier": args.tier}
+            Path(args.json).write_text(json.dumps(allres, indent=1, ensure_ascii=False))
     return 1 if missed else 0
 
 
